@@ -502,6 +502,13 @@ func resumeDomain(lines []string) []string {
 			// handed over once, in order, and the saved offsets end at the last record
 			out = append(out, liveChain(f[1], atoi(f[2]), f[3] == "1"))
 			continue
+		case "livepanic":
+			// livepanic <kind> <n> <k> <async>: the handler of a resumable subscription panics while it handles LIVE event k of
+			// n. The panic is contained like any other (C05): the publish returns, the handler subscribed after it still
+			// gets the event, the panic handler hears of it once, and the bus stays usable – every later publish returns and
+			// reaches both handlers, Wait returns
+			out = append(out, livePanic(f[1], atoi(f[2]), atoi(f[3]), f[4] == "1"))
+			continue
 		case "panicresume":
 			// panicresume <kind> <n> <k>: the process dies INSIDE the handler (a panic that unwinds SubscribeWithReplay) while
 			// event k of n is being replayed; after the restart the subscription is handed event k again (its position was
@@ -622,6 +629,93 @@ func liveChain(kind string, n int, two bool) string {
 		return fmt.Sprintf("!livechain saved offset of a is %q after the chain, the last record is %q", offA, evs[len(evs)-1].Offset)
 	}
 	return "livechain ok"
+}
+
+func livePanic(kind string, n, k int, async bool) string {
+	var st fullStore
+	if kind == "sqlite" {
+		dir, _ := os.MkdirTemp("", "veriflivepanic")
+		defer os.RemoveAll(dir)
+		s, err := ebsql.New(filepath.Join(dir, "db.sqlite"))
+		if err != nil {
+			return "!livepanic store " + err.Error()
+		}
+		defer s.Close()
+		st = s
+	} else {
+		st = eb.NewMemoryStore()
+	}
+	var mu sync.Mutex
+	var got, other, panics []int
+	bus := eb.New(eb.WithStore(st), eb.WithPanicHandler(func(ev any, _ reflect.Type, _ any) {
+		mu.Lock()
+		defer mu.Unlock()
+		if e, ok := ev.(RT1); ok {
+			panics = append(panics, e.R)
+		} else {
+			panics = append(panics, -1)
+		}
+	}))
+	var opts []eb.SubscribeOption
+	if async {
+		opts = append(opts, eb.Async(), eb.Sequential())
+	}
+	if err := eb.SubscribeWithReplay(context.Background(), bus, "lp", func(e RT1) {
+		mu.Lock()
+		got = append(got, e.R)
+		mu.Unlock()
+		if e.R == k {
+			panic("the handler of a resumable subscription panics on a live event")
+		}
+	}, opts...); err != nil {
+		return "!livepanic subscribe: " + err.Error()
+	}
+	if err := eb.Subscribe(bus, func(e RT1) { mu.Lock(); other = append(other, e.R); mu.Unlock() }); err != nil {
+		return "!livepanic subscribe: " + err.Error()
+	}
+	done := make(chan string, 1)
+	go func() {
+		defer func() {
+			if r := recover(); r != nil {
+				done <- fmt.Sprintf("!livepanic the panic reached the publisher: %v", r)
+			}
+		}()
+		for i := 1; i <= n; i++ {
+			eb.Publish(bus, mkRT1(i))
+		}
+		bus.Wait()
+		done <- ""
+	}()
+	select {
+	case v := <-done:
+		if v != "" {
+			return v
+		}
+	case <-time.After(12 * time.Second):
+		mu.Lock()
+		defer mu.Unlock()
+		return fmt.Sprintf("!livepanic after the handler of a resumable subscription panicked on event %d the bus is stuck: subscription saw %s, the other handler %s", k, showNatList(got), showNatList(other))
+	}
+	mu.Lock()
+	defer mu.Unlock()
+	var want []int
+	for i := 1; i <= n; i++ {
+		want = append(want, i)
+	}
+	if !reflect.DeepEqual(got, want) || !reflect.DeepEqual(other, want) {
+		return fmt.Sprintf("!livepanic events 1..%d (panic on %d): subscription saw %s, the other handler %s", n, k, showNatList(got), showNatList(other))
+	}
+	if !reflect.DeepEqual(panics, []int{k}) {
+		return fmt.Sprintf("!livepanic the panic handler was told of %s, the handler panicked on event %d", showNatList(panics), k)
+	}
+	if k < n {
+		evs, _, _ := st.Read(context.Background(), eb.OffsetOldest, 0)
+		off, _ := st.LoadOffset(context.Background(), "lp")
+		if len(evs) != n || off != evs[n-1].Offset {
+			return fmt.Sprintf("!livepanic saved offset is %q after %d events (%d records)", off, n, len(evs))
+		}
+	}
+	return "livepanic ok"
 }
 
 func panicResume(kind string, n, k int) string {
